@@ -219,7 +219,11 @@ impl Index for HnswIndex {
 
         // For Manhattan, request more candidates since L2 ordering != L1 ordering.
         // Reranking from a larger candidate set improves recall.
-        let search_k = if is_manhattan { k * 4 } else { k };
+        // Tombstoned ids stay in the graph until the next rebuild: fetch that many extra
+        // candidates and drop them below, so deleted vectors are never returned.
+        let tombstones = self.tombstones.read();
+        let wanted = k + tombstones.len();
+        let search_k = if is_manhattan { wanted * 4 } else { wanted };
         let raw_results = inner.hnsw.search(&prepared_query, search_k, ef_search);
 
         // Map internal indices to tuple IDs using the stored mapping
@@ -262,6 +266,8 @@ impl Index for HnswIndex {
                 .collect()
         };
 
+        results.retain(|(tuple_id, _)| !tombstones.contains(tuple_id));
+
         // Sort by distance and take top-k (important for Manhattan reranking)
         results.sort_by(|a, b| a.1.partial_cmp(&b.1).unwrap_or(std::cmp::Ordering::Equal));
         results.truncate(k);
@@ -301,6 +307,9 @@ impl Index for HnswIndex {
                 ));
             }
         }
+
+        // Inserting an id again makes it live again
+        self.tombstones.write().remove(&id);
 
         // Check for duplicate ID and update in place if found
         {
@@ -352,6 +361,7 @@ impl Index for HnswIndex {
                     ));
                 }
             }
+            self.tombstones.write().remove(id);
             {
                 let mut vectors = self.vectors.write();
                 if let Some(pos) = vectors
@@ -371,6 +381,11 @@ impl Index for HnswIndex {
     }
 
     fn delete(&mut self, id: TupleId) {
+        // Only a stored id can be deleted; a tombstone for an unknown id would only
+        // inflate the tombstone count and ratio.
+        if !self.vectors.read().iter().any(|(stored, _)| *stored == id) {
+            return;
+        }
         self.tombstones.write().insert(id);
 
         // Auto-compact when tombstone ratio exceeds 30% (#49)
